@@ -385,6 +385,14 @@ func (gen *generator) gepInstType(elemType, src types.Type, indices []ast.TypeVa
 				idx.VectorLen = indexType.Len
 			}
 		}
+		// A vector index widens the result also when it is a constant without
+		// elements (zeroinitializer, undef, poison); keep length and scalability.
+		if indexType, err := gen.irType(index.Typ()); err == nil {
+			if indexType, ok := indexType.(*types.VectorType); ok {
+				idx.VectorLen = indexType.Len
+				idx.Scalable = indexType.Scalable
+			}
+		}
 		idxs = append(idxs, idx)
 	}
 	return gep.ResultType(elemType, src, idxs), nil
